@@ -289,7 +289,13 @@ func (w *World) fieldConstDefaults() map[string]*ssa.Const {
 				if !ok {
 					// a whole structure stored over the allocation (x = T{...} through a value): fields unknown
 					if al, ok := st.Addr.(*ssa.Alloc); ok && bySite[al] != nil {
-						bySite[al].assigned["*"] = true
+						if _, zero := st.Val.(*ssa.Const); zero {
+							bySite[al].assigned["*"] = true
+						} else {
+							// a copy of an existing value (a parameter spilled to memory, a result kept in a local): not a
+							// construction
+							bySite[al].assigned["copy"] = true
+						}
 					}
 					continue
 				}
@@ -319,6 +325,9 @@ func (w *World) fieldConstDefaults() map[string]*ssa.Const {
 	for k := range out {
 		i := strings.LastIndex(k, ".")
 		for _, st := range sites[k[:i]] {
+			if st.assigned["copy"] && !st.assigned["*"] {
+				continue
+			}
 			if !st.assigned[k[i+1:]] || st.assigned["*"] {
 				bad[k] = true
 			}
@@ -366,4 +375,8 @@ func (w *World) variadicUnused(fn *ssa.Function) bool {
 		}
 	}
 	return n > 0
+}
+
+func (w *World) fieldConstByName(structType, field string) *ssa.Const {
+	return w.fieldConstDefaults()[structType+"."+field]
 }
